@@ -271,6 +271,9 @@ def run (ctx):
       ctx.ob('R-AGREE', imb, "non-strict matching: the given match subsumes the entry's", good, txt if good else "non-strict branch returns `%s` (direction or call changed)" % txt, (ftmod, r), 'D3')
 
   # what is_matched_by / expiry consult must be the entry's current state, not a copy made at construction
+  # the ordering every comparison of entries rests on (sorted insert, overlap check, lookup): shared with C03
+  from . import c03
+  c03.effective_priority_rule(ctx, repo, 'D2')
   stale = q.stale_derived_state(repo, te, [ftmod, swmod])
   for X, P, ist, (m_, f_, st_) in stale:
     ctx.bad('R-OWN', te, "state derived from `%s` at construction stays in step with it" % P,
